@@ -15,7 +15,7 @@ def main():
     seed = int(os.environ.get("VERIF_SEED", "0") or 0)
     prop = a.prop.upper()
     try:
-        if prop in ("C01", "C02", "C03", "C07", "C18"):
+        if prop in ("C01", "C02", "C03", "C04", "C07", "C18"):
             from . import c_parser
             from . import c_parser_extra
             rc = c_parser.run(prop, a.tier, seed, c_parser_extra.drivers(prop))
@@ -40,6 +40,9 @@ def main():
         elif prop == "C13":
             from . import c_proc
             rc = c_proc.run(prop, a.tier, seed)
+        elif prop == "C20":
+            from . import c_custom
+            rc = c_custom.run(prop, a.tier, seed)
         else:
             print("MACHINERY-FAILURE unknown property %s" % prop)
             rc = 2
